@@ -130,6 +130,14 @@ def h_fft(ex):
             w3 = noise.with_times(ex.const_array(later))
             ex.close(w3.values, [cos_sum_fft(ex, noise, t, RMS, t_start) for t in later],
                      'unique-trace-continues-the-same-cosines', tol=1e-9)
+        if n >= 4:
+            # re-gridding the object itself (times assignment, as resample() does) onto a
+            # coarser grid of shared sample times: still the same function of absolute time
+            want_c = [cos_sum_fft(ex, noise, t, RMS, t_start) for t in own[::2]]
+            noise.times = ex.const_array(own[::2])
+            ex.close(noise.values, want_c, 'in-place-regrid-same-values-at-shared-times', tol=1e-9)
+            noise.times = ex.const_array(own)
+            ex.close(noise.values, want, 'in-place-regrid-back-restores-the-waveform', tol=1e-9)
 
 
 def h_full(ex):
@@ -210,12 +218,16 @@ def h_basis(ex):
         times = ex.const_array([i * DT for i in range(n)])
         cls = sg.FFTThermalNoise if cls_name == 'fft' else sg.FullThermalNoise
         A_ = cls(times, f_band=band, f_amplitude=amp_fun(ex, 'a'), rms_voltage=RMS)
-        B_ = cls(times, f_band=band, f_amplitude=amp_fun(ex, 'b'), rms_voltage=RMS)
+        band_b = ex.case.get('band_b', band)
+        B_ = cls(times, f_band=band_b, f_amplitude=amp_fun(ex, 'b'), rms_voltage=RMS)
         va = list(A_.values)
         vb = list(B_.values)          # B evaluated once with its own basis
         if len(A_.freqs):
             diff = P.sb_or(*[P.cmp(x, y, '!=') for x, y in zip(va, vb)]) if ex.sym else True
             ex.exists(diff, 'independent-objects-differ-for-some-draw')
+        if band_b != band:
+            # a complete basis handed over from an object with other frequencies
+            B_.freqs = A_.freqs
         B_.amps = A_.amps
         B_.phases = A_.phases
         if ex.twin != 'keep-own':
@@ -282,9 +294,12 @@ HARNESSES = [
             budget={'quick': {'wall_s': 300, 'query_timeout_ms': 90000}}),
     Harness('basis', h_basis, _mods, encodes=_enc, twins=('keep-own',),
             cases={'quick': [{'n': 5, 'band': (0.15, 0.45)},
-                             {'n': 4, 'band': (0.2, 0.9), 'cls': 'full'}],
+                             {'n': 4, 'band': (0.2, 0.9), 'cls': 'full'},
+                             {'n': 4, 'band': (0.2, 0.9), 'band_b': (0.1, 0.6), 'cls': 'full'}],
                    'thorough': [{'n': n, 'band': b, 'cls': c} for n in (4, 5, 6)
-                                for b in ((0.15, 0.45), (0.2, 0.9)) for c in ('fft', 'full')]},
+                                for b in ((0.15, 0.45), (0.2, 0.9)) for c in ('fft', 'full')] +
+                   [{'n': n, 'band': (0.2, 0.9), 'band_b': bb, 'cls': 'full'} for n in (4, 5)
+                    for bb in ((0.1, 0.6), (0.3, 0.8))]},
             budget={'quick': {'wall_s': 300, 'query_timeout_ms': 60000}}),
 ]
 
